@@ -191,6 +191,42 @@ def sensitivity_job(interp, c, case):
     _rep(c, touched <= {"p"}, "only the named parameter is ever perturbed", "sensitivity perturbs another parameter", rp, {})
 
 
+def history_job(interp, c, case):
+    """the public wrappers are functions of the model's CURRENT parameters: a query, then Model.set_params, then a second query on
+    the same model object gives the derivative at the new values and leaves the new values in the model"""
+    method, = case
+    d = [[c.real("d%d_%d" % (i, e)) for e in range(3)] for i in range(2)]
+
+    def rhs(i, xs, M, t):
+        p = M.params["p"]
+        return d[i][0] + d[i][1] * p + d[i][2] * p * p + xs[i] * M.params["other"]
+    events = []
+    A = _install(interp, rhs, 2, events)
+    p0, o0, p1 = c.real("p"), c.real("other"), c.real("p_new")
+    M = _StubModel({"p": p0, "other": o0})
+    x = [c.real("x0"), c.real("x1")]
+    A.ns["py_get_sensitivity_to_parameter"](M, list(x), "p", method=method)
+    A.ns["py_get_jacobian"](M, list(x), method=method)
+    M.set_params({"p": p1})
+    Z = A.ns["py_get_sensitivity_to_parameter"](M, list(x), "p", method=method)
+    J = A.ns["py_get_jacobian"](M, list(x), method=method)
+    h = Fraction(1, 100)
+    conds = []
+    for i in range(2):
+        want = d[i][1] + 2 * d[i][2] * p1
+        if method == "forward_difference":
+            want = want + h * d[i][2]
+        elif method == "backward_difference":
+            want = want - h * d[i][2]
+        conds.append(Z[i] == want)
+        conds += [J[i, j] == (o0 if i == j else 0) for j in range(2)]
+    rp = dict(kind="history", method=method)
+    _rep(c, s_and(*conds), "[%s] after Model.set_params a second query on the same model is the derivative at the new parameter values" % method,
+         "sensitivity query depends on earlier queries", rp, {})
+    _rep(c, s_and(M.params["p"] == p1, M.params["other"] == o0), "[%s] and the model keeps the new parameter values" % method,
+         "sensitivity query restores stale parameters", rp, {})
+
+
 def check(tier):
     ck = Check("C18", "model_checking", tier)
     ns = [2] if tier == "quick" else [2, 3]
@@ -203,6 +239,8 @@ def check(tier):
         for extra in (0, 1):
             ck.add("sensitivity/%s/+%d" % (method, extra), "harness.C18", "sensitivity_job",
                    dict(cases=[(2, method, extra)]), fresh=True)
+    for method in METHODS:
+        ck.add("history/%s" % method, "harness.C18", "history_job", dict(cases=[(method,)]), fresh=True)
     ck.bounds = dict(states="n = %s" % ns, polynomial_degree="exactness class of each scheme (4/2/1/1) and one degree above",
                      step="h = 0.01 as hard-wired in SensitivityAnalysis.__init__")
     ck.assumptions = [
